@@ -97,7 +97,7 @@ fn c08_t_hash_views_v2() {
     let sd = ScriptData { redeemers: None, datums: None, language_views: Some(views(1, c)) };
     let got = sd.hash();
     let want = Hasher::<256>::hash(&[0xa0, 0xa1, 0x01, 0x81, c]);
-    assert!(digest_eq(&got, &want), "digest = H(a0 || {1: [c]})");
+    assert!(digest_eq(&got, &want), "digest = H(a0 || {{1: [c]}})");
     kani::cover!(c == 23, "largest one-byte coefficient");
     core::mem::forget(sd);
 }
@@ -111,7 +111,7 @@ fn c08_t_hash_views_v1() {
     let sd = ScriptData { redeemers: None, datums: None, language_views: Some(views(0, c)) };
     let got = sd.hash();
     let want = Hasher::<256>::hash(&[0xa0, 0xa1, 0x41, 0x00, 0x43, 0x9f, c, 0xff]);
-    assert!(digest_eq(&got, &want), "digest = H(a0 || {h'00': h'9f c ff'})");
+    assert!(digest_eq(&got, &want), "digest = H(a0 || {{h'00': h'9f c ff'}})");
     kani::cover!(c == 0, "zero coefficient");
     core::mem::forget(sd);
 }
@@ -125,7 +125,7 @@ fn c08_t_hash_views_v3() {
     let sd = ScriptData { redeemers: None, datums: None, language_views: Some(views(2, c)) };
     let got = sd.hash();
     let want = Hasher::<256>::hash(&[0xa0, 0xa1, 0x02, 0x81, c]);
-    assert!(digest_eq(&got, &want), "digest = H(a0 || {2: [c]})");
+    assert!(digest_eq(&got, &want), "digest = H(a0 || {{2: [c]}})");
     kani::cover!(c == 1, "reached");
     core::mem::forget(sd);
 }
@@ -160,7 +160,7 @@ fn c08_t_hash_redeemers_map() {
     let sd = ScriptData { redeemers: Some(Redeemers::Map(m)), datums: None, language_views: None };
     let got = sd.hash();
     let want = Hasher::<256>::hash(&[0xa1, 0x82, 0x00, 0x00, 0x82, 0x41, x, 0x82, mem, steps, 0xa0]);
-    assert!(digest_eq(&got, &want), "digest = H({[0, 0]: [h'xx', [mem, steps]]} || a0)");
+    assert!(digest_eq(&got, &want), "digest = H({{[0, 0]: [h'xx', [mem, steps]]}} || a0)");
     kani::cover!(mem == 0 && steps == 23, "reached");
     core::mem::forget(sd);
 }
